@@ -54,9 +54,15 @@ class PointProxy:
         setattr(self._t, attr, value)
 
 
-def scenario_for(causes, line_level=False):
+def scenario_for(causes, line_level=False, pubsub=False):
     def scenario(sched):
-        w = ServerWorld(is_async=False, namespaces=['/', '/x'])
+        mgr = None
+        if pubsub:
+            # the threaded server on a pub/sub manager (single host; the
+            # channel is a list nobody else reads)
+            from ..cluster import Hub, make_manager
+            mgr = make_manager(False, Hub(), 'H0')
+        w = ServerWorld(is_async=False, namespaces=['/', '/x'], manager=mgr)
         sio = w.sio
         log = w.log
 
@@ -179,7 +185,8 @@ def judge(causes, out):
 
 
 def job(args):
-    causes, line_level, bound, max_execs = args
+    causes, line_level, bound, max_execs = args[:4]
+    pubsub = len(args) > 4 and args[4]
     common.setup_imports()
     viols = []
     outcomes = set()
@@ -194,17 +201,18 @@ def job(args):
                 viols.append((key, msg, {'replay': {
                     'module': 'mc.checks.c20', 'func': 'replay',
                     'args': [list(causes), line_level,
-                             [c[1] for c in choices]]}}))
-    st = threads.explore(scenario_for(causes, line_level), on, bound=bound,
+                             [c[1] for c in choices], pubsub]}}))
+    st = threads.explore(scenario_for(causes, line_level, pubsub), on,
+                         bound=bound,
                          max_execs=max_execs,
                          trace_files=TRACE_FILES if line_level else ())
     return causes, line_level, st, viols, len(outcomes), sample
 
 
-def replay(causes, line_level, prefix):
+def replay(causes, line_level, prefix, pubsub=False):
     common.setup_imports()
     choices, out = threads.run_one(
-        scenario_for(tuple(causes), line_level), list(prefix),
+        scenario_for(tuple(causes), line_level, pubsub), list(prefix),
         trace_files=TRACE_FILES if line_level else ())
     return judge(tuple(causes), out)
 
@@ -213,6 +221,10 @@ def run(tier, seed, result):
     jobs = []
     for causes in itertools.combinations_with_replacement(CAUSES, 2):
         jobs.append((causes, False, 3 if tier == 'quick' else None, None))
+    # the same pairs on a pub/sub client manager
+    for causes in itertools.combinations_with_replacement(CAUSES[:3], 2):
+        jobs.append((causes, False, 2 if tier == 'quick' else None, None,
+                     True))
     if tier == 'thorough':
         for causes in itertools.combinations(CAUSES, 3):
             jobs.append((causes, False, 3, 60000))
